@@ -380,7 +380,7 @@ func (w wire20) Read(p []byte) (int, error) {
 
 func scenarios() []scenario {
 	sc := []scenario{blockScenario("ED"), blockScenario("DD"), blockScenario("EE"), blockScenario("EDE"), blockScenario("DDD"), cbcScenario(), helpersScenario(), sm3Scenario(), berScenario(), sm2Scenario(), sm2NonceScenario()}
-	return append(append(append(sc, connScenarios()...), handshakeScenarios()...), renegScenarios()...)
+	return append(append(append(append(sc, connScenarios()...), handshakeScenarios()...), renegScenarios()...), keyedBadRecordScenarios()...)
 }
 
 var _ = sort.Strings
